@@ -843,28 +843,31 @@ pub fn s3_addressing(p: &Plan, sink: &mut Sink) {
     // in the page above 4 GiB). The last group exists for FS/GS forms only: with a base of
     // 2^32 or one whose sum with the 32-bit offset carries out of bit 31, "truncate, then add
     // the base" (hardware) and "add the base, then truncate" differ (seed C05b).
-    let patterns: Vec<(u64, u64, u64, bool)> = if thorough {
+    let patterns: Vec<(u64, u64, u64, u8)> = if thorough {
         vec![
-            (0x10, 0, 0, false),
-            (0, 0xABCD_EF01_0000_0000, 0x1000, false),
-            (0xFFFF_FFFF_FFFF_FFF8, 0xFFFF_FFFF_0000_0000, 0x0000_7FFF_FFFF_E000, false),
-            (0x8000_0000_0000_0000, 0x1_0000_0000, 0x0000_7000_0000_0000, false),
-            (0x1_0000_0008, 0x8000_0000_0000_0000, 0x10, false),
-            (0x7FFF_FFFF_FFFF_FFF8, 0x1234_5678_0000_0000, 0x2000_0000, false),
-            (0xFFFF_FFF8, 0xFFFF_FFFF_0000_0000, 0x0000_0001_8000_0000, false),
-            (0x2000_0000_0000_0008, 0x7FFF_FFFF_0000_0000, 0x8, false),
-            (0x10, 0xABCD_EF01_0000_0000, 0x1_0000_0000, true),
-            (0x8, 0xFFFF_FFFF_0000_0000, 0xFFFF_F000, true),
-            (0xFFFF_FFF8, 0x1234_5678_0000_0000, 0x1_4FFF_F000, true),
-            (0x8000_0008, 0, 0xC000_0000, true),
+            (0x10, 0, 0, 0),
+            (0, 0xABCD_EF01_0000_0000, 0x1000, 0),
+            (0xFFFF_FFFF_FFFF_FFF8, 0xFFFF_FFFF_0000_0000, 0x0000_7FFF_FFFF_E000, 0),
+            (0x8000_0000_0000_0000, 0x1_0000_0000, 0x0000_7000_0000_0000, 0),
+            (0x1_0000_0008, 0x8000_0000_0000_0000, 0x10, 0),
+            (0x7FFF_FFFF_FFFF_FFF8, 0x1234_5678_0000_0000, 0x2000_0000, 0),
+            (0xFFFF_FFF8, 0xFFFF_FFFF_0000_0000, 0x0000_0001_8000_0000, 0),
+            (0x2000_0000_0000_0008, 0x7FFF_FFFF_0000_0000, 0x8, 0),
+            (0x10, 0xABCD_EF01_0000_0000, 0x1_0000_0000, 1),
+            (0x8, 0xFFFF_FFFF_0000_0000, 0xFFFF_F000, 1),
+            (0xFFFF_FFF8, 0x1234_5678_0000_0000, 0x1_4FFF_F000, 1),
+            (0x8000_0008, 0, 0xC000_0000, 1),
+            (0x10, 0xABCD_EF01_0000_0000, 0, 2),
+            (0xFFFF_FFF8, 0xFFFF_FFFF_0000_0000, 0x1000, 2),
         ]
     } else {
         vec![
-            (0x10, 0, 0x1000, false),
-            (0xFFFF_FFFF_FFFF_FFF8, 0xABCD_EF01_0000_0000, 0x0000_7FFF_FFFF_E000, false),
-            (0x8000_0001_0000_0008, 0xFFFF_FFFF_0000_0000, 0x0000_7000_0000_0000, false),
-            (0x10, 0xABCD_EF01_0000_0000, 0x1_0000_0000, true),
-            (0x8, 0xFFFF_FFFF_0000_0000, 0xFFFF_F000, true),
+            (0x10, 0, 0x1000, 0),
+            (0xFFFF_FFFF_FFFF_FFF8, 0xABCD_EF01_0000_0000, 0x0000_7FFF_FFFF_E000, 0),
+            (0x8000_0001_0000_0008, 0xFFFF_FFFF_0000_0000, 0x0000_7000_0000_0000, 0),
+            (0x10, 0xABCD_EF01_0000_0000, 0x1_0000_0000, 1),
+            (0x8, 0xFFFF_FFFF_0000_0000, 0xFFFF_F000, 1),
+            (0x10, 0xABCD_EF01_0000_0000, 0, 2),
         ]
     };
     let disp8s: Vec<i64> = if thorough { vec![0x10, -0x10, 0x7F, -0x80, 0] } else { vec![0x10, -0x80] };
@@ -950,9 +953,16 @@ pub fn s3_addressing(p: &Plan, sink: &mut Sink) {
                                 if i.memory_index() == Register::None { "-" } else { "r" }
                             );
                             for disp in disps {
-                                for (iv, hi, sb, high) in &patterns {
+                                for (iv, hi, sb, sel) in &patterns {
                                     let seg_fsgs = matches!(i.segment_prefix(), Register::FS | Register::GS);
+                                    let high = *sel == 1;
+                                    let high = &high;
                                     if *high && !seg_fsgs {
+                                        continue;
+                                    }
+                                    // the page with bit 31 set: 32-bit addressing only (that is
+                                    // where zero- vs sign-extension of a 32-bit sum or disp32 shows)
+                                    if *sel == 2 && !a32 {
                                         continue;
                                     }
                                     if !sink.next() {
@@ -964,7 +974,10 @@ pub fn s3_addressing(p: &Plan, sink: &mut Sink) {
                                     let sbase = if has_regs || *high { *sb } else { *sb & 0xFFFF };
                                     s.fs = sbase;
                                     s.gs = sbase ^ 0x100;
-                                    let target = if *high { HI + 0x800 } else { DEFAULT_TARGET };
+                                    let target = if *high { HI + 0x800 } else if *sel == 2 { HI32 + 0x800 } else { DEFAULT_TARGET };
+                                    let sbase = if *sel == 2 && !seg_fsgs { 0 } else { sbase };
+                                    s.fs = sbase;
+                                    s.gs = sbase ^ 0x100;
                                     let pl = match place(&bytes, IP, target, *iv, *disp, *hi, &mut s.gpr, s.fs, s.gs) {
                                         Some(pl) => pl,
                                         None => {
